@@ -52,6 +52,12 @@ macro_rules! timed_call {
     }};
 }
 
+/// `a.link(forwarder calling b.add)`: only a blocking (std) handle can be used from inside a plain method
+macro_rules! chain_link {
+    (std, $a:ident, $b:ident) => {{ let mut b2 = $b.clone(); $a.link(Box::new(move |x| b2.add(7, 0, x))); }};
+    ($lib:ident, $a:ident, $b:ident) => {{ let _ = (&$a, &$b); return Err("chain needs lib=std".to_string()); }};
+}
+
 /// Number of call kinds available to `mixed` (asy exists only for async libs).
 macro_rules! nkinds {
     (std) => { 5u32 };
@@ -80,6 +86,8 @@ macro_rules! stamp_actor {
             pub struct Probe {
                 rec: Arc<Rec>,
                 acc: i64,
+                // what `relay` forwards to (another actor of the same type, see scenario `chain`)
+                next: Option<Box<dyn FnMut(i64) -> i64 + Send>>,
             }
 
             impl Drop for Probe {
@@ -93,7 +101,7 @@ macro_rules! stamp_actor {
             impl Probe {
                 pub fn new(rec: Arc<Rec>) -> Self {
                     rec.ctor_runs.fetch_add(1, SeqCst);
-                    Self { rec, acc: 0 }
+                    Self { rec, acc: 0, next: None }
                 }
 
                 pub fn tick(&mut self, caller: u32, seq: u32) {
@@ -143,6 +151,19 @@ macro_rules! stamp_actor {
                 pub fn log(&self) -> Vec<String> {
                     let _g = self.rec.enter();
                     self.rec.snapshot()
+                }
+
+                // `link` installs a forwarder, `relay` calls it from inside the actor (one actor using the handle of another)
+                pub fn link(&mut self, f: Box<dyn FnMut(i64) -> i64 + Send>) {
+                    self.next = Some(f);
+                }
+
+                pub fn relay(&mut self, caller: u32, seq: u32, x: i64) -> i64 {
+                    let _g = self.rec.enter();
+                    let v = match self.next.as_mut() { Some(f) => f(x), None => x };
+                    self.acc = self.acc.wrapping_add(v);
+                    self.rec.push(format!("relay:{caller}:{seq}:{v}"));
+                    v
                 }
 
                 // a value-returning call whose value is the unit type, with the return type spelled out
@@ -195,6 +216,8 @@ macro_rules! runners {
                 "lifecycle" => lifecycle(p),
                 "fault" => fault(p),
                 "slowreply" => slowreply(p),
+                "nothread" => nothread(p),
+                "chain" => chain(p),
                 other => Err(format!("scenario {other} is not available in this module")),
             }
         }
@@ -460,6 +483,52 @@ macro_rules! runners {
                 .s("get_after", &after.describe())
                 .strs("log", &rec.snapshot())
                 .n("drops", rec.drops.load(SeqCst) as i64)
+                .done())
+        }
+
+        // ---- 3d. chain (lib = std): a method of one actor calls a value-returning method of another actor of the same type
+        pub fn chain(p: &Params) -> Result<String, String> {
+            let rec_a = Rec::new();
+            let rec_b = Rec::new();
+            let mut a = ProbeLive::new(rec_a.clone());
+            let b = ProbeLive::new(rec_b.clone());
+            chain_link!($lib, a, b);
+            let r = timed_call!($lib, [$($aw)*], a, a.relay(0, 0, 5), Duration::from_secs(3));
+            let (outcome, value) = match &r { Timed::Ok(v) => ("returned".to_string(), Some(*v)), other => (other.describe(), None) };
+            let ga = timed_call!($lib, [$($aw)*], a, a.get(), Duration::from_secs(3));
+            let gb = timed_call!($lib, [$($aw)*], b, b.get(), Duration::from_secs(3));
+            Ok(Obj::new(p)
+                .s("outcome", &outcome)
+                .raw("value", jopt_num(value))
+                .s("a_after", &ga.describe())
+                .s("b_after", &gb.describe())
+                .strs("log_a", &rec_a.snapshot())
+                .strs("log_b", &rec_b.snapshot())
+                .done())
+        }
+
+        // ---- 3c. nothread: the constructor is called at a moment when the OS refuses a new thread (meaningful for lib = std):
+        //          either it fails loudly, or the handle it returns is served by an actor
+        pub fn nothread(p: &Params) -> Result<String, String> {
+            let rec = Rec::new();
+            let r2 = rec.clone();
+            let res = with_no_threads(move || std::panic::catch_unwind(std::panic::AssertUnwindSafe(|| ProbeLive::new(r2))));
+            let (injected, outcome, served, drops_with_handle) = match res {
+                None => (false, "none", false, 0),
+                Some(Err(_)) => (true, "constructor_panicked", false, 0),
+                Some(Ok(h)) => {
+                    let drops = rec.drops.load(SeqCst);
+                    let g = timed_call!($lib, [$($aw)*], h, h.get(), Duration::from_secs(3));
+                    let ok = matches!(g, Timed::Ok(_));
+                    (true, "handle", ok, drops)
+                }
+            };
+            Ok(Obj::new(p)
+                .b("injected", injected)
+                .s("outcome", outcome)
+                .b("served", served)
+                .n("drops_while_handle_exists", drops_with_handle as i64)
+                .n("ctor_runs", rec.ctor_runs.load(SeqCst) as i64)
                 .done())
         }
 
